@@ -82,6 +82,15 @@ impl FinalityTracker {
         // decided slots lie at or below the highest finalized slot
         &&& forall|s: Slot| decided(#[trigger] self.st(s)) ==> s.0 <= self.highest_finalized_slot.0
     }
+    // the same, in the window where slot `exc` has just been marked Finalized and the highest
+    // finalized slot is about to be raised
+    pub open spec fn wf_base_exc(&self, exc: Slot) -> bool {
+        &&& forall|s: Slot| #[trigger] self.status@.contains_key(s) ==> s.0 >= self.first_unpruned_slot.0
+        &&& forall|b: BlockId| #[trigger] self.parents@.contains_key(b) ==> b.0.0 >= self.first_unpruned_slot.0
+        &&& forall|b: BlockId| #[trigger] self.parents@.contains_key(b) ==> self.parents@[b].0.0 < b.0.0
+        &&& self.first_unpruned_slot.0 <= self.highest_finalized_slot.0 < u64::MAX
+        &&& forall|s: Slot| decided(#[trigger] self.st(s)) && s != exc ==> s.0 <= self.highest_finalized_slot.0
+    }
     pub open spec fn wf(&self) -> bool {
         &&& self.wf_base()
         // the watermark is maximal: the slot after it is not decided
@@ -112,6 +121,12 @@ broadcast use super::axiom_Slot_obeys_cmp_laws, super::axiom_block_id_obeys_cmp_
 #[verifier::external_body]
 pub fn verif_clone_block_id(b: &BlockId) -> (r: BlockId)
     ensures r == *b
+{ unimplemented!() }
+
+// `==` on the tuple type BlockId (built-in PartialEq impl for tuples): TRUSTED to be equality.
+#[verifier::external_body]
+pub fn verif_block_id_eq(a: &BlockId, b: &BlockId) -> (r: bool)
+    ensures r == (*a == *b)
 { unimplemented!() }
 
 #[verifier::external_body]
@@ -210,6 +225,11 @@ ensures
         forall|s: Slot| keeps_decision(#[trigger] old(self).st(s), final(self).st(s)),
         forall|s: Slot| !decided(final(self).st(s)) ==> final(self).st(s) == #[trigger] old(self).st(s),
         forall|s: Slot| decided(final(self).st(s)) && !decided(#[trigger] old(self).st(s)) ==> s.0 < source_slot.0,
+        // [C08.ancestors_decided_as_soon_as_link_known]
+        implicitly_finalized.0.0 >= old(self).first_unpruned_slot.0 ==>
+            ((exists|t: Slot| implicitly_finalized.0.0 < t.0 < source_slot.0 && #[trigger] old(self).st(t) == Some(FinalizationStatus::ImplicitlySkipped))
+             || (fin_hash(final(self).st(implicitly_finalized.0)) == Some(implicitly_finalized.1)
+                 && forall|t: Slot| implicitly_finalized.0.0 < t.0 < source_slot.0 ==> decided(#[trigger] final(self).st(t)))),
         // [C08.implicit_events_reported_once]
         final(event).finalized == old(event).finalized,
         old(event).implicitly_skipped@.is_prefix_of(final(event).implicitly_skipped@),
@@ -224,6 +244,7 @@ loop 0
         invariant_except_break
             verif_slot_it.0 < source_slot.0,
         invariant
+            pre == *old(self), pre_ev == *old(event),
             self.wf_base(),
             self.parents@ == old(self).parents@,
             self.highest_finalized_slot == old(self).highest_finalized_slot,
@@ -234,18 +255,23 @@ loop 0
             forall|s: Slot| keeps_decision(#[trigger] old(self).st(s), self.st(s)),
             forall|s: Slot| !decided(self.st(s)) ==> self.st(s) == #[trigger] old(self).st(s),
             forall|s: Slot| decided(self.st(s)) && !decided(#[trigger] old(self).st(s)) ==> implicitly_finalized.0.0 < s.0 <= verif_slot_it.0 && s.0 < source_slot.0,
+            forall|t: Slot| implicitly_finalized.0.0 < t.0 <= verif_slot_it.0 && t.0 < source_slot.0 ==> decided(#[trigger] self.st(t)),
+            forall|t: Slot| verif_slot_it.0 < t.0 ==> self.st(t) == #[trigger] old(self).st(t),
             event.finalized == old(event).finalized,
             event.implicitly_finalized@ == old(event).implicitly_finalized@,
             old(event).implicitly_skipped@.is_prefix_of(event.implicitly_skipped@),
             forall|i: int| old(event).implicitly_skipped@.len() <= i < event.implicitly_skipped@.len() ==>
                 !decided(old(self).st(#[trigger] event.implicitly_skipped@[i])) && self.st(event.implicitly_skipped@[i]) == Some(FinalizationStatus::ImplicitlySkipped)
                 && implicitly_finalized.0.0 < event.implicitly_skipped@[i].0 <= verif_slot_it.0 && event.implicitly_skipped@[i].0 < source_slot.0,
+        ensures
+            verif_slot_it.0 == source_slot.0,
         decreases source_slot.0 - verif_slot_it.0,
 before `vassert(source_slot > implicitly_finalized.0);`
         let ghost pre = *self;
         let ghost pre_ev = *event;
 before `let old = self .status .insert(slot, FinalizationStatus::ImplicitlySkipped);`
         let ghost g1 = *self;
+
 after `let old = self .status .insert(slot, FinalizationStatus::ImplicitlySkipped);`
         proof {
             assert forall|s: Slot| #[trigger] self.st(s) == (if s == slot { Some(FinalizationStatus::ImplicitlySkipped) } else { g1.st(s) }) by {}
@@ -263,7 +289,10 @@ after `self.status.insert(slot, status);`
         proof {
             assert forall|s: Slot| #[trigger] self.st(s) == g2.st(s) by {}
             assert(self.status@ =~= g2.status@);
+            assert forall|t: Slot| implicitly_finalized.0.0 < t.0 < source_slot.0 implies decided(#[trigger] self.st(t)) by { let _ = g2.st(t); }
         }
+before `return;#1`
+        proof { assert(old == Some(FinalizationStatus::ImplicitlySkipped)); assert(g1.st(slot) == old); assert(g1.st(slot) == pre.st(slot)); assert(pre.st(slot) == Some(FinalizationStatus::ImplicitlySkipped)); }
 before `if let Some(parent) = verif_cloned_block_id(self.parents.get(&implicitly_finalized))`
         let ghost g3 = *self;
         let ghost ev3 = *event;
@@ -275,10 +304,13 @@ before `if let Some(parent) = verif_cloned_block_id(self.parents.get(&implicitly
             assert(ev3.implicitly_finalized@ == pre_ev.implicitly_finalized@.push(implicitly_finalized));
             assert(fin_hash(pre.st(implicitly_finalized.0)) is None);
             assert(g3.st(implicitly_finalized.0) == Some(FinalizationStatus::ImplicitlyFinalized(implicitly_finalized.1)));
+            assert forall|t: Slot| implicitly_finalized.0.0 < t.0 < source_slot.0 implies decided(#[trigger] g3.st(t)) by { let _ = g2.st(t); }
         }
 after `self.handle_implicitly_finalized(implicitly_finalized.0, parent, event);`
         proof {
             assert forall|s: Slot| keeps_decision(#[trigger] pre.st(s), self.st(s)) by { let _ = g3.st(s); }
+            assert forall|t: Slot| implicitly_finalized.0.0 < t.0 < source_slot.0 implies decided(#[trigger] self.st(t)) by { let _ = g3.st(t); }
+            assert(fin_hash(self.st(implicitly_finalized.0)) == Some(implicitly_finalized.1)) by { let _ = g3.st(implicitly_finalized.0); }
             assert forall|s: Slot| !decided(self.st(s)) implies self.st(s) == #[trigger] pre.st(s) by { let _ = g3.st(s); }
             assert forall|s: Slot| decided(self.st(s)) && !decided(#[trigger] pre.st(s)) implies s.0 < source_slot.0 by { let _ = g3.st(s); }
             assert forall|i: int| pre_ev.implicitly_finalized@.len() <= i < event.implicitly_finalized@.len() implies
@@ -306,7 +338,7 @@ props C08
 rewrite*[R9] `finalized.clone()` => `verif_clone_block_id(&finalized)`
 rewrite[R9] `self.parents.get(&finalized).cloned()` => `verif_cloned_block_id(self.parents.get(&finalized))`
 requires
-        old(self).wf_base(),
+        old(self).wf_base_exc(finalized.0),
         finalized.0.0 < u64::MAX,
         old(self).st(finalized.0) == Some(FinalizationStatus::Finalized(finalized.1)),
         event_is_default(*old(event)),
@@ -318,14 +350,229 @@ ensures
         final(self).highest_finalized_slot.0 == (if finalized.0.0 >= old(self).highest_finalized_slot.0 { finalized.0.0 } else { old(self).highest_finalized_slot.0 }),
         final(self).first_unpruned_slot.0 >= old(self).first_unpruned_slot.0,
         // [C08.no_downgrade]
-        forall|s: Slot| s.0 >= final(self).first_unpruned_slot.0 ==> keeps_decision(old(self).st(s), #[trigger] final(self).st(s)),
-        forall|s: Slot| s.0 >= final(self).first_unpruned_slot.0 && !decided(#[trigger] final(self).st(s)) ==> final(self).st(s) == old(self).st(s),
+        forall|s: Slot| s.0 >= final(self).first_unpruned_slot.0 ==> keeps_decision(#[trigger] old(self).st(s), final(self).st(s)),
+        forall|s: Slot| s.0 >= final(self).first_unpruned_slot.0 && !decided(final(self).st(s)) ==> final(self).st(s) == #[trigger] old(self).st(s),
         // [C08.nothing_undecided_is_dropped]
-        forall|s: Slot| old(self).first_unpruned_slot.0 <= s.0 < final(self).first_unpruned_slot.0 ==> #[trigger] old(self).st(s) == old(self).st(s) && true,
         forall|b: BlockId| b.0.0 >= final(self).first_unpruned_slot.0 ==> (#[trigger] final(self).parents@.contains_key(b) <==> old(self).parents@.contains_key(b)),
         // [C08.implicit_events_reported_once]
         forall|i: int| 0 <= i < final(event).implicitly_skipped@.len() ==> !decided(old(self).st(#[trigger] final(event).implicitly_skipped@[i])),
         forall|i: int| 0 <= i < final(event).implicitly_finalized@.len() ==> fin_hash(old(self).st((#[trigger] final(event).implicitly_finalized@[i]).0)) is None,
+after `self.highest_finalized_slot = slot.max(self.highest_finalized_slot);`
+        let ghost g1 = *self;
+        proof {
+            assert forall|s: Slot| #[trigger] self.st(s) == old(self).st(s) by {}
+            assert(self.wf_base());
+        }
+before `self.prune();`
+        let ghost g2 = *self;
+        proof {
+            assert forall|s: Slot| keeps_decision(#[trigger] old(self).st(s), g2.st(s)) by { let _ = g1.st(s); }
+            assert forall|s: Slot| !decided(g2.st(s)) implies g2.st(s) == #[trigger] old(self).st(s) by { let _ = g1.st(s); }
+        }
+@*/
+
+/*@ extract src/consensus/pool/finality_tracker.rs :: impl FinalityTracker/fn mark_fast_finalized
+props C08
+ret r
+requires
+        old(self).wf(),
+        block.0.0 < u64::MAX,
+ensures
+        final(self).wf(),
+        // [C08.below_watermark_is_a_noop]
+        block.0.0 < old(self).first_unpruned_slot.0 ==> final(self).same_as(old(self)) && event_is_default(r),
+        // [C08.finalized_exactly_when_certificates_justify]
+        r.finalized is Some <==> (block.0.0 >= old(self).first_unpruned_slot.0 && fin_hash(old(self).st(block.0)) is None),
+        r.finalized is Some ==> r.finalized == Some(block),
+        block.0.0 >= final(self).first_unpruned_slot.0 ==> final(self).st(block.0) == Some(FinalizationStatus::Finalized(block.1)),
+        // [C08.highest_finalized_never_decreases]
+        final(self).highest_finalized_slot.0 >= old(self).highest_finalized_slot.0,
+        r.finalized is Some ==> final(self).highest_finalized_slot.0 >= block.0.0,
+        r.finalized is None ==> final(self).highest_finalized_slot == old(self).highest_finalized_slot,
+        final(self).first_unpruned_slot.0 >= old(self).first_unpruned_slot.0,
+        // [C08.no_downgrade]
+        forall|s: Slot| s.0 >= final(self).first_unpruned_slot.0 ==> keeps_decision(#[trigger] old(self).st(s), final(self).st(s)),
+        // [C08.implicit_events_reported_once]
+        forall|i: int| 0 <= i < r.implicitly_skipped@.len() ==> !decided(old(self).st(#[trigger] r.implicitly_skipped@[i])),
+        forall|i: int| 0 <= i < r.implicitly_finalized@.len() ==> fin_hash(old(self).st((#[trigger] r.implicitly_finalized@[i]).0)) is None,
+before `let old = self .status .insert(*slot, FinalizationStatus::Finalized(block_hash.clone()));`
+        let ghost pre = *self;
+after `let old = self .status .insert(*slot, FinalizationStatus::Finalized(block_hash.clone()));`
+        proof {
+            assert forall|s: Slot| #[trigger] self.st(s) == (if s == *slot { Some(FinalizationStatus::Finalized(*block_hash)) } else { pre.st(s) }) by {}
+            assert(old == pre.st(*slot));
+        }
+before `self.handle_finalized_block(block, &mut event);`
+        let ghost g = *self;
+after `self.handle_finalized_block(block, &mut event);`
+        proof {
+            assert forall|s: Slot| s.0 >= self.first_unpruned_slot.0 implies keeps_decision(#[trigger] pre.st(s), self.st(s)) by { let _ = g.st(s); }
+        }
+@*/
+
+/*@ extract src/consensus/pool/finality_tracker.rs :: impl FinalityTracker/fn mark_notarized
+props C08
+ret r
+requires
+        old(self).wf(),
+        block.0.0 < u64::MAX,
+ensures
+        final(self).wf(),
+        // [C08.below_watermark_is_a_noop]
+        block.0.0 < old(self).first_unpruned_slot.0 ==> final(self).same_as(old(self)) && event_is_default(r),
+        // [C08.finalized_exactly_when_certificates_justify]
+        r.finalized is Some <==> (block.0.0 >= old(self).first_unpruned_slot.0 && old(self).st(block.0) == Some(FinalizationStatus::FinalPendingNotar)),
+        r.finalized is Some ==> r.finalized == Some(block),
+        (block.0.0 >= old(self).first_unpruned_slot.0 && old(self).st(block.0) is None) ==> final(self).st(block.0) == Some(FinalizationStatus::Notarized(block.1)),
+        // [C08.highest_finalized_never_decreases]
+        final(self).highest_finalized_slot.0 >= old(self).highest_finalized_slot.0,
+        r.finalized is Some ==> final(self).highest_finalized_slot.0 >= block.0.0,
+        r.finalized is None ==> final(self).highest_finalized_slot == old(self).highest_finalized_slot,
+        final(self).first_unpruned_slot.0 >= old(self).first_unpruned_slot.0,
+        // [C08.no_downgrade]
+        forall|s: Slot| s.0 >= final(self).first_unpruned_slot.0 ==> keeps_decision(#[trigger] old(self).st(s), final(self).st(s)),
+        // [C08.implicit_events_reported_once]
+        forall|i: int| 0 <= i < r.implicitly_skipped@.len() ==> !decided(old(self).st(#[trigger] r.implicitly_skipped@[i])),
+        forall|i: int| 0 <= i < r.implicitly_finalized@.len() ==> fin_hash(old(self).st((#[trigger] r.implicitly_finalized@[i]).0)) is None,
+before `let old = self .status .insert(*slot, FinalizationStatus::Notarized(block_hash.clone()));`
+        let ghost pre = *self;
+after `let old = self .status .insert(*slot, FinalizationStatus::Notarized(block_hash.clone()));`
+        proof {
+            assert forall|s: Slot| #[trigger] self.st(s) == (if s == *slot { Some(FinalizationStatus::Notarized(*block_hash)) } else { pre.st(s) }) by {}
+            assert(old == pre.st(*slot));
+        }
+after `self.status .insert(*slot, FinalizationStatus::Finalized(block_hash.clone()));`
+        proof {
+            assert forall|s: Slot| #[trigger] self.st(s) == (if s == *slot { Some(FinalizationStatus::Finalized(*block_hash)) } else { pre.st(s) }) by {}
+        }
+after `self.status.insert(*slot, status);#0`
+        proof { assert forall|s: Slot| #[trigger] self.st(s) == pre.st(s) by {} assert(self.status@ =~= pre.status@); }
+after `self.status.insert(*slot, status);#1`
+        proof { assert forall|s: Slot| #[trigger] self.st(s) == pre.st(s) by {} assert(self.status@ =~= pre.status@); }
+before `self.handle_finalized_block(block, &mut event);`
+        let ghost g = *self;
+after `self.handle_finalized_block(block, &mut event);`
+        proof {
+            assert forall|s: Slot| s.0 >= self.first_unpruned_slot.0 implies keeps_decision(#[trigger] pre.st(s), self.st(s)) by { let _ = g.st(s); }
+        }
+@*/
+
+/*@ extract src/consensus/pool/finality_tracker.rs :: impl FinalityTracker/fn mark_finalized
+props C08
+ret r
+requires
+        old(self).wf(),
+        slot.0 < u64::MAX,
+ensures
+        final(self).wf(),
+        // [C08.below_watermark_is_a_noop]
+        slot.0 < old(self).first_unpruned_slot.0 ==> final(self).same_as(old(self)) && event_is_default(r),
+        // [C08.finalized_exactly_when_certificates_justify]
+        r.finalized is Some <==> (slot.0 >= old(self).first_unpruned_slot.0 && old(self).st(slot) matches Some(FinalizationStatus::Notarized(_))),
+        r.finalized matches Some(b) ==> b.0 == slot && old(self).st(slot) == Some(FinalizationStatus::Notarized(b.1)),
+        (slot.0 >= old(self).first_unpruned_slot.0 && old(self).st(slot) is None) ==> final(self).st(slot) == Some(FinalizationStatus::FinalPendingNotar),
+        // [C08.highest_finalized_never_decreases]
+        final(self).highest_finalized_slot.0 >= old(self).highest_finalized_slot.0,
+        r.finalized is Some ==> final(self).highest_finalized_slot.0 >= slot.0,
+        r.finalized is None ==> final(self).highest_finalized_slot == old(self).highest_finalized_slot,
+        final(self).first_unpruned_slot.0 >= old(self).first_unpruned_slot.0,
+        // [C08.no_downgrade]
+        forall|s: Slot| s.0 >= final(self).first_unpruned_slot.0 ==> keeps_decision(#[trigger] old(self).st(s), final(self).st(s)),
+        // [C08.implicit_events_reported_once]
+        forall|i: int| 0 <= i < r.implicitly_skipped@.len() ==> !decided(old(self).st(#[trigger] r.implicitly_skipped@[i])),
+        forall|i: int| 0 <= i < r.implicitly_finalized@.len() ==> fin_hash(old(self).st((#[trigger] r.implicitly_finalized@[i]).0)) is None,
+before `let old = self .status .insert(slot, FinalizationStatus::FinalPendingNotar);`
+        let ghost pre = *self;
+after `let old = self .status .insert(slot, FinalizationStatus::FinalPendingNotar);`
+        proof {
+            assert forall|s: Slot| #[trigger] self.st(s) == (if s == slot { Some(FinalizationStatus::FinalPendingNotar) } else { pre.st(s) }) by {}
+            assert(old == pre.st(slot));
+        }
+after `self.status .insert(slot, FinalizationStatus::Finalized(block_hash.clone()));`
+        proof {
+            assert forall|s: Slot| #[trigger] self.st(s) == (if s == slot { Some(FinalizationStatus::Finalized(block_hash)) } else { pre.st(s) }) by {}
+        }
+after `self.status.insert(slot, status);`
+        proof { assert forall|s: Slot| #[trigger] self.st(s) == pre.st(s) by {} assert(self.status@ =~= pre.status@); }
+before `self.handle_finalized_block((slot, block_hash), &mut event);`
+        let ghost g = *self;
+after `self.handle_finalized_block((slot, block_hash), &mut event);`
+        proof {
+            assert forall|s: Slot| s.0 >= self.first_unpruned_slot.0 implies keeps_decision(#[trigger] pre.st(s), self.st(s)) by { let _ = g.st(s); }
+        }
+@*/
+
+/*@ extract src/consensus/pool/finality_tracker.rs :: impl FinalityTracker/fn add_parent
+props C08 C10
+ret r
+rewrite*[R9] `block.clone()` => `verif_clone_block_id(&block)`
+rewrite*[R9] `parent.clone()` => `verif_clone_block_id(&parent)`
+rewrite[R5] `match self.parents.entry(verif_clone_block_id(&block)) { Entry::Occupied(e) => { vassert(e.get() == &parent); return FinalizationEvent::default(); } Entry::Vacant(e) => { e.insert(verif_clone_block_id(&parent)); } }` => `match self.parents.get(&block) { Some(existing) => { vassert(verif_block_id_eq(existing, &parent)); return FinalizationEvent::default(); } None => { self.parents.insert(verif_clone_block_id(&block), verif_clone_block_id(&parent)); } }`
+requires
+        old(self).wf(),
+        // [C10.parent_in_earlier_slot C08.parent_in_earlier_slot]
+        block.0.0 > parent.0.0,
+        // [C10.one_parent_per_block]
+        old(self).parents@.contains_key(block) ==> old(self).parents@[block] == parent,
+        block.0.0 < u64::MAX,
+ensures
+        final(self).wf(),
+        // [C08.below_watermark_is_a_noop]
+        block.0.0 < old(self).first_unpruned_slot.0 ==> final(self).same_as(old(self)) && event_is_default(r),
+        // [C08.parent_link_recorded]
+        block.0.0 >= final(self).first_unpruned_slot.0 ==> final(self).parents@.contains_key(block) && final(self).parents@[block] == parent,
+        // [C08.finalized_exactly_when_certificates_justify]
+        r.finalized is None,
+        final(self).highest_finalized_slot == old(self).highest_finalized_slot,
+        final(self).first_unpruned_slot.0 >= old(self).first_unpruned_slot.0,
+        // [C08.no_downgrade]
+        forall|s: Slot| s.0 >= final(self).first_unpruned_slot.0 ==> keeps_decision(#[trigger] old(self).st(s), final(self).st(s)),
+        // [C08.implicit_events_reported_once]
+        forall|i: int| 0 <= i < r.implicitly_skipped@.len() ==> !decided(old(self).st(#[trigger] r.implicitly_skipped@[i])),
+        forall|i: int| 0 <= i < r.implicitly_finalized@.len() ==> fin_hash(old(self).st((#[trigger] r.implicitly_finalized@[i]).0)) is None,
+before `let (slot, block_hash) = block;`
+        let ghost g0 = *self;
+        proof {
+            assert forall|s: Slot| #[trigger] self.st(s) == old(self).st(s) by {}
+            assert(self.wf());
+        }
+before `self.handle_implicitly_finalized(slot, parent, &mut event);`
+        proof { assert(decided(self.st(slot))); }
+before `self.prune();`
+        let ghost g2 = *self;
+        proof {
+            assert forall|s: Slot| keeps_decision(#[trigger] old(self).st(s), g2.st(s)) by { let _ = g0.st(s); }
+        }
+@*/
+
+// Canary: the real mark_finalized under a deliberately false contract; it MUST fail to verify.
+/*@ extract src/consensus/pool/finality_tracker.rs :: impl FinalityTracker/fn mark_finalized
+as canary_mark_finalized
+expect-fail
+ret r
+requires
+        old(self).wf(),
+        slot.0 < u64::MAX,
+ensures
+        r.finalized is None,
+@*/
+}
+
+/*@ extract src/crypto/merkle.rs :: const GENESIS_BLOCK_HASH
+ensures
+        true,
+@*/
+impl Default for FinalityTracker {
+/*@ extract src/consensus/pool/finality_tracker.rs :: impl Default for FinalityTracker/fn default
+props C08
+nopub
+ret r
+ensures
+        // [C08.initial_state_well_formed]
+        r.wf(),
+        r.highest_finalized_slot.0 == 0 && r.first_unpruned_slot.0 == 0,
+        r.st(Slot(0)) matches Some(FinalizationStatus::Notarized(_)),
+        forall|s: Slot| s.0 != 0 ==> r.st(s) is None,
 @*/
 }
 
